@@ -91,7 +91,7 @@ Proof.
   assert (forall s, plain (VStr s) = true -> nospace s) as PS.
   { intros s H. unfold plain in H. apply negb_true_iff in H. apply orb_false_iff in H. destruct H as [H _].
     apply orb_false_iff in H. tauto. }
-  destruct d as [| | | |d'|?|?|?| | | | ]; try discriminate; destruct v; try discriminate; simpl in *;
+  destruct d as [| | | |d'|?|?|?| | | | | ]; try discriminate; destruct v; try discriminate; simpl in *;
     try apply dec_nospace; try (apply float_ok_nospace; assumption); try (apply PS; assumption).
   all: destruct d'; try discriminate; simpl in *; try reflexivity; try discriminate;
     try apply dec_nospace; try (apply float_ok_nospace; assumption); try (apply PS; assumption).
@@ -103,7 +103,7 @@ Proof.
   intros Hd Hv Hw Pv Pw H.
   assert (forall s, plain (VStr s) = true -> s <> "None") as PN.
   { intros s Hs ->. vm_compute in Hs. discriminate. }
-  destruct d as [| | | |d'|?|?|?| | | | ]; try discriminate.
+  destruct d as [| | | |d'|?|?|?| | | | | ]; try discriminate.
   - destruct v, w; try discriminate. simpl in H. f_equal. apply dec_inj. assumption.
   - destruct v, w; try discriminate. simpl in H. congruence.
   - destruct v, w; try discriminate. simpl in H. congruence.
@@ -190,6 +190,7 @@ Proof.
   - rewrite andb_true_iff, !Z.eqb_eq. split; [intros [-> ->]; reflexivity|intros E; inversion E; auto].
   - rewrite andb_true_iff, !Z.eqb_eq. split; [intros [-> ->]; reflexivity|intros E; inversion E; auto].
   - rewrite N.eqb_eq. split; congruence.
+  - rewrite N.eqb_eq. split; congruence.
 Qed.
 
 Lemma pvals_eqb_eq : forall xs ys, pvals_eqb xs ys = true <-> xs = ys.
@@ -241,7 +242,7 @@ Qed.
 (* ---------- validation yields level-2 values, canonicalisation yields cache-key values ---------- *)
 Lemma validate_valid : forall d v x, validate d v = Ok x -> valid d x = true.
 Proof.
-  fix IH 1. intros d v x H. destruct d as [| | | |d'|n| |ds| | | | ].
+  fix IH 1. intros d v x H. destruct d as [| | | |d'|n| |ds| | | | | ].
   - destruct v; simpl in H; try discriminate; inversion H; reflexivity.
   - destruct v; simpl in H; try discriminate.
     + destruct (_ && _) eqn:E; [|discriminate]. inversion H. simpl. apply andb_true_iff in E. apply float_ok_held. tauto.
@@ -279,17 +280,18 @@ Proof.
     destruct (Prefixed.is_prefix q) eqn:E; [|discriminate]. inversion H. simpl. assumption.
   - simpl in H. destruct (to_number false v) as [[y|]|]; simpl in H; try discriminate. inversion H. reflexivity.
   - destruct v; simpl in H; try discriminate; inversion H; reflexivity.
+  - destruct v; simpl in H; try discriminate; inversion H; reflexivity.
 Qed.
 
 Definition simple (v : pval) : bool :=
-  match v with VPrefW _ _ | VDecW _ | VRec _ | VPref _ _ | VDec _ _ | VFloat _ => false | _ => true end.
+  match v with VPrefW _ _ | VDecW _ | VRec _ | VPref _ _ | VDec _ _ | VFloat _ | VMut _ => false | _ => true end.
 
 Lemma canon_simple v : simple v = true -> canon v = Ok v.
 Proof. destruct v; try discriminate; reflexivity. Qed.
 
 Lemma canon_typed : forall d x y, valid d x = true -> canon x = Ok y -> typed d y = true.
 Proof.
-  fix IH 1. intros d x y V C. destruct d as [| | | |d'|n| |ds| | | | ].
+  fix IH 1. intros d x y V C. destruct d as [| | | |d'|n| |ds| | | | | ].
   1,3-4,6-7: destruct x; try discriminate; simpl in C; inversion C; subst; exact V.
   1: { destruct x; try discriminate. simpl in C. inversion C. simpl. apply float_held_fzero. exact V. }
   - assert (forall z, typed d' z = true -> typed (DOpt d') z = true) as L by (intros z Hz; destruct z; simpl; auto).
@@ -311,20 +313,22 @@ Proof.
   - destruct x; try discriminate; simpl in C.
     destruct (canon_dec d) as [ce|] eqn:E; simpl in C; [|discriminate]. inversion C. simpl. eapply canon_dec_ok. eassumption.
   - destruct x; try discriminate; simpl in C; inversion C; subst; exact V.
+  - destruct x; try discriminate; simpl in C; inversion C; subst; exact V.
 Qed.
 
-(* canonicalisation never fails on a validated value *)
-Lemma canon_total : forall d x, valid d x = true -> exists y, canon x = Ok y.
+(* canonicalisation never fails on a validated value that holds no unhashable container ... *)
+Lemma canon_total : forall d x, valid d x = true -> has_mut x = false -> exists y, canon x = Ok y.
 Proof.
-  fix IH 1. intros d x V. destruct d as [| | | |d'|n| |ds| | | | ].
+  fix IH 1. intros d x V M. destruct d as [| | | |d'|n| |ds| | | | | ].
   1-4,6-7: destruct x; try discriminate; eexists; reflexivity.
   - destruct x; simpl in V; try (eexists; reflexivity); eapply IH; eassumption.
-  - destruct x; try discriminate. simpl in V.
+  - destruct x; try discriminate. simpl in V. simpl in M.
     assert (exists r, (fix go (vs : list pval) : result (list pval) :=
               match vs with [] => Ok [] | x :: vs' => y <- canon x ;; ys <- go vs' ;; Ok (y :: ys) end) vs = Ok r) as [r R].
-    { revert vs V. induction ds as [|d0 ds IHl]; intros vs V; destruct vs as [|v0 vs]; try discriminate.
+    { revert vs V M. induction ds as [|d0 ds IHl]; intros vs V M; destruct vs as [|v0 vs]; try discriminate.
       - eexists; reflexivity.
-      - apply andb_true_iff in V. destruct V as [V0 V]. destruct (IH _ _ V0) as [y0 Y0]. destruct (IHl _ V) as [r R].
+      - apply andb_true_iff in V. destruct V as [V0 V]. apply orb_false_iff in M. destruct M as [M0 M].
+        destruct (IH _ _ V0 M0) as [y0 Y0]. destruct (IHl _ V M) as [r R].
         exists (y0 :: r). rewrite Y0. simpl. rewrite R. reflexivity. }
     exists (VRec r). simpl. rewrite R. reflexivity.
   - destruct x; try discriminate.
@@ -332,7 +336,28 @@ Proof.
     + destruct (canon_pref_total d q) as [c [e E]]. eexists. simpl. rewrite E. reflexivity.
   - destruct x; try discriminate. destruct (canon_pref_total d q) as [c [e E]]. eexists. simpl. rewrite E. reflexivity.
   - destruct x; try discriminate. destruct (canon_dec_total d) as [c [e E]]. eexists. simpl. rewrite E. reflexivity.
+  - destruct x; try discriminate.
   - destruct x; try discriminate; eexists; reflexivity.
+Qed.
+
+(* ... and ONLY on such a value: a value that has a cache key holds no unhashable container (no validity needed) *)
+Lemma canon_ok_no_mut : forall x y, canon x = Ok y -> has_mut x = false.
+Proof.
+  fix IH 1. intros x y C. destruct x; try reflexivity; [|discriminate].
+  simpl in C. simpl.
+  match type of C with (bind ?g _) = _ => destruct g as [r|] eqn:G; simpl in C; [|discriminate] end.
+  clear C. revert r G. induction vs as [|v0 vs IHl]; intros r G; [reflexivity|].
+  destruct (canon v0) as [x0|] eqn:N0; simpl in G; [|discriminate].
+  match type of G with (bind ?g _) = _ => destruct g as [r'|] eqn:G'; simpl in G; [|discriminate] end.
+  rewrite (IH _ _ N0). simpl. eapply IHl. reflexivity.
+Qed.
+
+Lemma canon_all_ok_no_mut : forall vs r, canon_all vs = Ok r -> existsb has_mut vs = false.
+Proof.
+  induction vs as [|v vs IH]; intros r H; [reflexivity|]. simpl in H.
+  destruct (canon v) as [x|] eqn:C; simpl in H; [|discriminate].
+  destruct (canon_all vs) as [xs|] eqn:Cs; simpl in H; [|discriminate].
+  simpl. rewrite (canon_ok_no_mut _ _ C). simpl. eapply IH. reflexivity.
 Qed.
 
 Lemma norm_typed d v x : ParamName.norm d v = Ok x -> typed d x = true.
@@ -734,14 +759,14 @@ Qed.
 
 Fixpoint lvl3 (v : pval) : bool :=
   match v with
-  | VPrefW _ _ | VDecW _ => false
+  | VPrefW _ _ | VDecW _ | VMut _ => false
   | VRec vs => (fix go (vs : list pval) : bool := match vs with [] => true | x :: vs' => lvl3 x && go vs' end) vs
   | _ => true
   end.
 
 Lemma typed_lvl3 : forall d v, typed d v = true -> lvl3 v = true.
 Proof.
-  fix IH 1. intros d v H. destruct d as [| | | |d'|n| |ds| | | | ]; try (destruct v; try discriminate; reflexivity).
+  fix IH 1. intros d v H. destruct d as [| | | |d'|n| |ds| | | | | ]; try (destruct v; try discriminate; reflexivity).
   - destruct v; simpl in H; try reflexivity; try (eapply IH; eassumption).
   - destruct v; try discriminate. simpl in H. simpl. revert vs H.
     induction ds as [|d0 ds IHl]; intros [|v0 vs] H; try discriminate; [reflexivity|].
